@@ -121,6 +121,8 @@ func newC14v2(t *testing.T) *c14v2 {
 		}
 		h.base = append(h.base, root)
 	}
+	// a contract that references all of them, so that they are never pruned
+	h.newContract(-1, 4)
 	return h
 }
 
@@ -547,7 +549,7 @@ func TestVerifC14RHP2(t *testing.T) {
 				var resp rhp2.RPCFormContractAdditions
 				rerr = rt.ReadResponse(&resp, 1<<20)
 			})
-			if rerr != nil && strings.Contains(rerr.Error(), "base costs overflow") {
+			if rerr != nil && strings.Contains(rerr.Error(), "costs overflow") {
 				resTerm, rejected = "(Err EInvalid)", true
 				em.Count("renewcosts:overflow")
 			} else {
